@@ -14,13 +14,19 @@ for d in sorted(glob.glob("/verif/seeded/*/")):
     own = [c for c in checks.split() if c.startswith(j["property"] + ":")]
     caught = any("exit=1" in c and "violations=0" not in c for c in own)
     others = [c.split(":")[0] + ("!" if "exit=1" in c else "") for c in checks.split() if not c.startswith(j["property"] + ":")]
-    rows.append((name, "yes" if ok else "NO", "caught" if caught else "MISSED", " ".join(others), notes))
+    first = j.get("checks_when_first_tried")
+    was = ""
+    if first is not None:
+        fo = [c for c in first.split() if c.startswith(j["property"] + ":")]
+        was = "caught" if any("exit=1" in c and "violations=0" not in c for c in fo) else "missed"
+    rows.append((name, "yes" if ok else "NO", "caught" if caught else "MISSED", was, " ".join(others), notes))
 with open("/verif/seeded/SUMMARY.md", "w") as fh:
     fh.write("# Seeded property-breaking changes\n\nEach directory holds patch.diff, demo.py (fails with the change, passes without), notes.txt (the author's description) and meta.json "
              "(what was confirmed and which checks were run with the change applied to /repo). Written by independent sub-agents that saw only the property text.\n\n"
              "`confirmed` = demo passes on the unchanged tree, fails with the change, and the 163 tests still pass. `own check` = result of the quick check of the property the change "
              "was written against. `other checks run` lists further checks run on the same change (`!` = that check also reported a violation).\n\n"
-             "| change | confirmed | own check | other checks run | what it is |\n|---|---|---|---|---|\n")
+             "`when first tried` = what the own check said before any strengthening prompted by this change (empty: not recorded separately).\n\n"
+             "| change | confirmed | own check | when first tried | other checks run | what it is |\n|---|---|---|---|---|---|\n")
     for r in rows:
         fh.write("| " + " | ".join(r) + " |\n")
 print(len(rows), "rows;", sum(1 for r in rows if r[2] == "caught"), "caught")
